@@ -1,19 +1,23 @@
-// simcheck is the single binary behind every registered check.
+// simcheck is the single binary behind every registered check. It runs under testing.Main
+// because testing/synctest needs a *testing.T to open a bubble.
 package main
 
 import (
 	"fmt"
 	"os"
 	"strings"
+	"testing"
 
 	gnarklogger "github.com/consensys/gnark/logger"
 	"github.com/rs/zerolog"
 
 	"verifsim/checks"
 	"verifsim/engine"
+	"verifsim/service"
 )
 
 func main() {
+	testing.Init()
 	gnarklogger.Disable()
 	zerolog.SetGlobalLevel(zerolog.Disabled) // the repository logs through zerolog to stderr
 	o := engine.ParseFlags()
@@ -22,5 +26,9 @@ func main() {
 		fmt.Fprintf(os.Stderr, "unknown property %q (have %s)\n", o.Prop, strings.Join(checks.IDs(), " "))
 		os.Exit(2)
 	}
-	engine.Main(chk, o)
+	testing.Main(func(pat, str string) (bool, error) { return true, nil },
+		[]testing.InternalTest{{Name: "Sim", F: func(t *testing.T) {
+			service.T = t
+			engine.Main(chk, o) // exits the process
+		}}}, nil, nil)
 }
